@@ -9,7 +9,7 @@ from .. import ewit
 LEVEL = 'other'
 UNITS = ['src/transform/SmartRotation3D.cpp', 'verif:inst_math.cpp']
 ENGINES = 'E-WIT + E-ALG + E-SIB + E-INT over romea-facts'
-TECHNIQUE = 'multi-path Euler extraction on boundary witness angles, closed-form quaternion extraction on unit and non-unit witness quaternions; compile-time instantiation witnesses (clang -fsyntax-only); exact algebra on the extracted rotation/coordinate formulas; range typing of the angle normalisers'
+TECHNIQUE = 'constructors judged by the value of R_ (entries from uninitialised storage), multi-path toSpherical on witness norms; multi-path Euler extraction on boundary witness angles, closed-form quaternion extraction on unit and non-unit witness quaternions; compile-time instantiation witnesses (clang -fsyntax-only); exact algebra on the extracted rotation/coordinate formulas; range typing of the angle normalisers'
 EXPLANATION = ('Every parametrisation API is instantiated for float and double in one witness unit; rotation builders, the Euler extraction, the normalisers and the '
                'polar/spherical maps are read as formulas and checked by exact algebra / range typing (C10_alg).')
 ASSUMPTIONS = ['exact real arithmetic for the algebraic identities; |pitch| < pi/2; point norm > 0']
